@@ -15,6 +15,7 @@ def run(tier, replay=None):
         schemas += shapes.catalogue(tier, bo)
     B = {"consistency": "catalogue families A and B, both byte orders, ladder <= %d size vectors per message: size_bytes of message / every group / entry / data / composite / array (random access), cursor position after every member and cursor-based size after a full traversal, trait-level size_bytes(counts..., total_data) of the message and of every group instance; all against the length of the reference image" % cap,
                        "large_values": "all 16 (numInGroup, blockLength) type pairs and 4 length types, header values {0,1,2,3,max/2,max/2+1,max-1,max} in a header-only guarded buffer; runtime size_bytes and trait formulas; cases whose size does not fit size_t excluded",
+                       "message_block_lengths": "fields-only messages under every message-header blockLength type (uint8/16/32/64, int16/64): wire blockLength in {0, 1, compiled, 2^31-1, 2^31, max/2, max/2+1, max-h-1 .. max} (h = header size); size_bytes(m) must be header size + wire blockLength wherever that fits size_t",
                        "cells": [cxx.cell_name(c) for c in cells]}
     rep.set("bounds", B)
     # (i) run-time sizes, random access and cursor
@@ -34,7 +35,9 @@ def run(tier, replay=None):
                                        ["SBEPP_ENABLE_ASSERTS_WITH_HANDLER", "SCHEMA=" + schema, "BIG=%d" % big], opt="-O1"))
     lib_run("C05", tier, "c05", "c05_sizes.cpp", vs, {}, 1, [], [], replay=replay, level="exploration", rep=rep, finish=False)
     rep.set("bounds", B)
-    large = rep.cov.get("evaluations", 0)
+    large_msg = message_block_lengths(rep, tier, cells)
+    rep.set("message_block_length_evaluations", large_msg)
+    large = rep.cov.get("evaluations", 0) + large_msg
     rep.set("large_value_evaluations", large)
     rep.set("size_observations", total.counters.get("sizes", 0) * len(cells))
     rep.set("trait_formula_evaluations", tt.cases)
@@ -44,3 +47,63 @@ def run(tier, replay=None):
                     "every size is compared with the reference image length / a 128-bit product")
     rep.assume("a message without any non-constant member has no cursor accessor: its cursor-based size is the header size (see DESIGN.md)")
     return rep.finish()
+
+
+def message_block_lengths(rep, tier, cells):
+    """(iv) size_bytes of a fields-only message = header size + *wire* blockLength, for every header blockLength type and
+    values up to the type's maximum (the sum has to be formed in size_t, not in the header member's promoted type)"""
+    import os
+    from ..enum import headers
+    from ..gen import build
+    from ..model import layout
+    from ..model.codec import psize
+    wd = cxx.workdir("c05m-" + tier)
+    n = 0
+    sel = [(s, d) for s, d in headers.header_schemas() if "H:type:blockLength=" in d[0] or d[0].startswith("H:perm:b,t,s,v") or ":all=" in d[0]]
+    for s, d in sel:
+        sb = build.SchemaBuild(s, os.path.join(wd, s.package))
+        if not sb.generate():
+            rep.harness_error("header schema rejected: " + sb.log[-200:])
+            continue
+        rms = [rm for rm in layout.Resolver(s).messages() if not rm.level.groups and not rm.level.data]
+        if not rms:
+            continue
+        rm = rms[0]
+        slot = rm.header.slot("blockLength")
+        w = psize(slot.prim)
+        hsize = rm.header.size
+        mx = (1 << (8 * w)) - 1
+        vals = sorted({0, 1, rm.level.block_length, mx // 2, mx // 2 + 1, mx} | {mx - k for k in range(0, hsize + 2)} |
+                      ({2 ** 31 - 1, 2 ** 31} if w >= 4 else set()))
+        if slot.prim.startswith("int"):
+            vals = [v for v in vals if v <= mx // 2]       # non-negative values of the signed member only
+        cls = "::%s::messages::%s<unsigned char>" % (s.package, rm.name)
+        src = ['#include <%s>' % sb.top_header(), '#include <cstdio>', '#include <cstring>', 'int main() {',
+               '  alignas(8) unsigned char buf[256];']
+        for v in vals:
+            bs = v.to_bytes(w, "big" if s.big else "little")
+            src.append('  { std::memset(buf, 0, sizeof buf); const unsigned char b_[] = {%s}; std::memcpy(buf + %d, b_, %d); %s m_{buf, sizeof buf};'
+                       ' std::printf("%d %%llu\\n", (unsigned long long)::sbepp::size_bytes(m_)); }'
+                       % (",".join(str(x) for x in bs), slot.offset, w, cls, v))
+        src.append('  return 0; }')
+        cpp = os.path.join(sb.root, "mbl.cpp")
+        open(cpp, "w").write("\n".join(src))
+        for cell in cells:
+            exe = os.path.join(sb.root, "mbl_" + cxx.cell_name(cell))
+            ok, log = cxx.build(cell, [cpp], exe, includes=[sb.inc], defines=["SBEPP_DISABLE_ASSERTS"], opt="-O1")
+            if not ok:
+                rep.harness_error("message-blockLength driver does not compile for %s on %s: %s" % (d[0], cxx.cell_name(cell), log[-400:]))
+                continue
+            rc, out = cxx.sh([exe], timeout=120)
+            got = dict(tuple(int(x) for x in l.split()) for l in (out or "").splitlines() if l.strip())
+            for v in vals:
+                want = hsize + v
+                if want >= 2 ** 64:
+                    continue
+                n += 1
+                if got.get(v) != want:
+                    rep.violation("message-size_bytes:header-blockLength=%s:%s" % (slot.prim, "beyond-32-bits" if want >= 2 ** 32 else "value"),
+                                  {"schema": s.package, "layout": d[0], "cell": cxx.cell_name(cell), "wire_blockLength": v,
+                                   "msg": "%s [%s]: size_bytes(%s) with wire blockLength %d = %s, expected header %d + %d = %d"
+                                          % (d[0], cxx.cell_name(cell), rm.name, v, got.get(v), hsize, v, want)})
+    return n
